@@ -110,4 +110,21 @@ PROPS = {
         "level_text": "Machine-checked Lean 4 theorems: (1) the invariants Acct (token/size/users accounting), Link (waiter registration) and Conserve (every object id in exactly one place; detach exactly once) are preserved by `cancel` and `panic` at every program counter where they are enabled - the Pc datatype enumerates every await point of get() - so no token, size slot or users count stays reserved in any schedule with any number of concurrent tasks; (2) differential theorem C03_as_if_never_called: from ANY reachable state, a get() that runs alone through ANY sequence of outcomes (unbounded: it may reject arbitrarily many idle objects, be suspended anywhere, be cancelled or panic anywhere) and ends without an object leaves the semaphore EQUAL to what it was, users and the checked-out set equal, the idle queue a sub-list, size (hence status()) reduced exactly by the idle objects discarded; (3) C03_discarded_detached_once: each discarded idle object and each object created by the call was detached exactly once during the call and is gone for good. Tied to the code by the correspondence run (cancel/panic forced at every suspension kind) and by a solo-differential monitor on the real pool that compares hook snapshots before/after every get() that ran alone.",
         "level_note": "The differential theorem is for a call that runs alone between its start and its end (other operations may be parked at any point, they just do not move); under concurrency the statement is the invariant form (1). Assumes Rust's drop order of async-fn state as validated in DESIGN §9. Axioms: propext, Classical.choice, Quot.sound only.",
     },
+    "C09": {
+        "title": "retain(), take() and detach keep the books straight",
+        "modules": ["DeadpoolVerif.Props.C09"],
+        "theorems": [
+            "DeadpoolVerif.C09_retain_exact", "DeadpoolVerif.C09_retain_partition", "DeadpoolVerif.C09_take",
+            "DeadpoolVerif.C09_detach_exactly_once", "DeadpoolVerif.C09_detach_exactly_once_run",
+            "DeadpoolVerif.C09_gone_is_gone",
+            "DeadpoolVerif.reach_run", "DeadpoolVerif.run_acct", "DeadpoolVerif.run_conserve",
+        ],
+        "projection": BASE + SEM + CNT + ["idle", "out", "live", "ev"],
+        "profiles": {"quick": [("retain", 800), ("resize", 300), ("close", 300)],
+                     "thorough": [("retain", 12000), ("resize", 6000), ("close", 6000), ("cancel", 4000)]},
+        "monitor": "C09",
+        "design_ref": "DESIGN.md §6 C09",
+        "level_text": "Machine-checked Lean 4 theorems: retain with an arbitrary stateful predicate (the answer of its k-th call) removes exactly the idle objects answered `false`, keeps the rest in order, reports accurate counts, detaches each removed object once and touches neither checked-out objects nor the semaphore nor max_size (C09_retain_exact, C09_retain_partition); Object::take hands the value over, shrinks size and users by one and returns one token (C09_take); in EVERY reachable state (all histories incl. resize, close, cancellations, panics; any thread-level interleaving of the atomic steps) the number of detach calls for an object id equals the number of times it left the pool, which is at most once, it is zero for every object still idle / checked out / in an operation's hands, no object is in two places (C09_detach_exactly_once from the counting invariant Conserve), and a gone object never reappears in any continuation (C09_gone_is_gone). Tied to the code by the correspondence run (events: every detach / destroy / taken / pred / retained with object ids and metrics) and a ground-truth monitor over destructor and detach logs.",
+        "level_note": "Panicking predicates / detach are outside the quantifier (they run under the mutex and poison it). The shrink/close path of the pinned tree dropped idle objects without detach; repaired (fix: 995d67d) and covered by corpus/C09. Axioms: propext, Classical.choice, Quot.sound only.",
+    },
 }
